@@ -561,6 +561,16 @@ func (w *World) Run(done func() bool) {
 	}
 }
 
+// ProcOfGoroutine maps a goroutine id (as printed in a stack dump) to its simulated process.
+func (w *World) ProcOfGoroutine(id int64) *Proc {
+	w.mu.Lock()
+	defer w.mu.Unlock()
+	if t := w.tasks[id]; t != nil {
+		return t.Proc
+	}
+	return nil
+}
+
 // TraceHash identifies the schedule that was executed.
 func (w *World) TraceHash() string { return fmt.Sprintf("%016x", w.traceH) }
 
